@@ -142,6 +142,7 @@ pub fn run_stack<E: Entry, S: IdxC<Idx<E>>>(ctx: &mut Ctx) {
             if n != model.len() {
                 return Err(format!("iteration yields {n} items, get(i) succeeds for {}", model.len()));
             }
+            crate::check::adaptors_checked(|| fs.iter(), model.len(), "iter()", &|k, x| E::check(x, &model[k], Lvl::BASIC))?;
             Ok(())
         });
         match walked {
